@@ -8,6 +8,7 @@ CONSTANTS
   Alphabet <- AlphabetQuick
   PreOps <- PreNone
   SibFields <- NoFields
+  SidPairs <- NoSid
   TamperMax = 0
 INVARIANTS TypeOK PIdStable PRoundTrip PRedactKeeps PV12 PBuildOrRefuse Emit
 CHECK_DEADLOCK FALSE
